@@ -245,6 +245,9 @@ impl Space for Main {
         let orders: Arc<Mutex<BTreeSet<Vec<(u8, usize)>>>> = Arc::new(Mutex::new(BTreeSet::new()));
         let execs = Arc::new(Mutex::new(0u64));
         let viols: Arc<Mutex<Vec<(String, String)>>> = Arc::new(Mutex::new(vec![]));
+        let partial = Arc::new(Mutex::new(0u64));
+        let failed = Arc::new(Mutex::new(0u64));
+        let (p2, f2) = (partial.clone(), failed.clone());
         let (o2, or2, ex2, v2) = (outcomes.clone(), orders.clone(), execs.clone(), viols.clone());
         let mut b = loom::model::Builder::new();
         b.preemption_bound = Some(self.bound);
@@ -283,6 +286,11 @@ impl Space for Main {
                         }
                         // whatever the chain now claims to hold must still be served correctly
                         let obs = observe(&mut chain, &paths);
+                        // observed, not judged: does a failed parallel add leave members behind?
+                        *f2.lock().unwrap() += 1;
+                        if obs["count"] != m_before.len().to_string() {
+                            *p2.lock().unwrap() += 1;
+                        }
                         judge(&obs, &m_before, false, &ctx, &mut add_viol);
                         format!("Err|{obs:?}")
                     }
@@ -304,6 +312,8 @@ impl Space for Main {
         let outs = outcomes.lock().unwrap().clone();
         let ords = orders.lock().unwrap().len() as u64;
         r.count("schedules_explored", execs);
+        r.count("failed_parallel_adds_observed", *failed.lock().unwrap());
+        r.count("failed_parallel_adds_that_left_members_behind_not_judged", *partial.lock().unwrap());
         r.count("distinct_event_orders", ords);
         if outs.len() > 1 {
             let mut it = outs.iter();
